@@ -24,8 +24,8 @@ fn run(ctx: &mut Ctx, extra: &mut BTreeMap<String, String>) {
   let small = ctx.pass != "release";
   let exh = if ctx.thorough { if small { 6 } else { 9 } } else if small { 5 } else { 7 };
   let n_cells = if ctx.thorough { if small { 300 } else { 8000 } } else if small { 60 } else { 600 };
-  let n_cones = if ctx.thorough { if small { 3000 } else { 400000 } } else if small { 400 } else { 30000 };
-  let n_bsd = if ctx.thorough { if small { 5000 } else { 2000000 } } else if small { 800 } else { 80000 };
+  let n_cones = if ctx.thorough { if small { 3000 } else { 2000000 } } else if small { 400 } else { 30000 };
+  let n_bsd = if ctx.thorough { if small { 5000 } else { 10000000 } } else if small { 800 } else { 80000 };
   extra.insert("exhaustive_up_to_depth".into(), format!("{}", exh));
   let thr = bsd_thresholds();
   extra.insert("thresholds_by_bisection".into(), format!("[{}]", thr.iter().map(|t| jnum(*t)).collect::<Vec<_>>().join(", ")));
